@@ -47,7 +47,12 @@ func (d *Pegnetd) GradeS(ctx context.Context, block *factom.EBlock) (graderStake
 		}
 		// allow only top 100 stake holders submit prices
 		stakerRCD := extids[1]
-		if d.Pegnet.IsIncludedTopPEGAddress(stakerRCD) {
+		isTop, err := d.Pegnet.IsIncludedTopPEGAddress(stakerRCD)
+		if err != nil {
+			// a failed query is not a verdict on the staker: fail the block so it is retried
+			return nil, err
+		}
+		if isTop {
 			// ignore bad opr errors
 			err = g.AddSPR(entry.Hash[:], extids, entry.Content)
 			if err != nil {
